@@ -248,7 +248,7 @@ protected:
 
     FASTOR_INLINE void complex_mask_aligned_load(const scalar_value_type *data, uint16_t mask) {
 #ifdef FASTOR_HAS_AVX512_MASKS
-        __m512 lo, hi;
+        __m512 lo = _mm512_setzero_ps(), hi = _mm512_setzero_ps();
         uint16_t mask0, mask1;
         split_mask<Size>(mask, mask0, mask1);
         lo = _mm512_mask_load_ps(lo, mask0, reinterpret_cast<const float*>(data  ));
@@ -269,7 +269,7 @@ protected:
     }
     FASTOR_INLINE void complex_mask_unaligned_load(const scalar_value_type *data, uint16_t mask) {
 #ifdef FASTOR_HAS_AVX512_MASKS
-        __m512 lo, hi;
+        __m512 lo = _mm512_setzero_ps(), hi = _mm512_setzero_ps();
         uint16_t mask0, mask1;
         split_mask<Size>(mask, mask0, mask1);
         lo = _mm512_mask_loadu_ps(lo, mask0, reinterpret_cast<const float*>(data  ));
@@ -782,7 +782,7 @@ protected:
 
     FASTOR_INLINE void complex_mask_aligned_load(const scalar_value_type *data, uint8_t mask) {
 #ifdef FASTOR_HAS_AVX512_MASKS
-        __m256 lo, hi;
+        __m256 lo = _mm256_setzero_ps(), hi = _mm256_setzero_ps();
         uint8_t mask0, mask1;
         split_mask<Size>(mask, mask0, mask1);
         lo = _mm256_mask_load_ps(lo, mask0, reinterpret_cast<const float*>(data  ));
@@ -803,7 +803,7 @@ protected:
     }
     FASTOR_INLINE void complex_mask_unaligned_load(const scalar_value_type *data, uint8_t mask) {
 #ifdef FASTOR_HAS_AVX512_MASKS
-        __m256 lo, hi;
+        __m256 lo = _mm256_setzero_ps(), hi = _mm256_setzero_ps();
         uint8_t mask0, mask1;
         split_mask<Size>(mask, mask0, mask1);
         lo = _mm256_mask_loadu_ps(lo, mask0, reinterpret_cast<const float*>(data  ));
@@ -1303,7 +1303,7 @@ protected:
 
     FASTOR_INLINE void complex_mask_aligned_load(const scalar_value_type *data, uint8_t mask) {
 #ifdef FASTOR_HAS_AVX512_MASKS
-        __m128 lo, hi;
+        __m128 lo = _mm_setzero_ps(), hi = _mm_setzero_ps();
         uint8_t mask0, mask1;
         split_mask<Size>(mask, mask0, mask1);
         lo = _mm_mask_load_ps(lo, mask0, reinterpret_cast<const float*>(data  ));
@@ -1324,7 +1324,7 @@ protected:
     }
     FASTOR_INLINE void complex_mask_unaligned_load(const scalar_value_type *data, uint8_t mask) {
 #ifdef FASTOR_HAS_AVX512_MASKS
-        __m128 lo, hi;
+        __m128 lo = _mm_setzero_ps(), hi = _mm_setzero_ps();
         uint8_t mask0, mask1;
         split_mask<Size>(mask, mask0, mask1);
         lo = _mm_mask_loadu_ps(lo, mask0, reinterpret_cast<const float*>(data  ));
